@@ -419,6 +419,18 @@ Definition both_step (st : res world * list (list Z)) (op : wop) : res world * l
   | Panic => (Panic, snd st)
   end.
 
+(* heap h' differs from h at most in the contents (not the length) of header array a *)
+Definition frame (h h' : heap) (a : nat) : Prop :=
+  length h' = length h /\ (forall b, b <> a -> harray h' b = harray h b) /\
+  length (harray h' a) = length (harray h a).
+
+(* which object a history step writes (Clone only reads its source and adds a new object) *)
+Definition wop_writes (op : wop) : option nat :=
+  match op with
+  | WTrim o _ | WCap o _ | WRemoveFirst o => Some (Z.to_nat o)
+  | WClone _ _ => None
+  end.
+
 (* re-slicing chains: (i, j, k) stands for v[i:j:k]; v[i:j] is the case k = cap(v) *)
 Definition reslice (r : res View) (ijk : Z * Z * Z) : res View :=
   match r with
